@@ -1,6 +1,7 @@
 """Shared driver pieces: evidence writing, known findings, replay files, runner builds."""
 import json
 import os
+import re
 import subprocess
 import sys
 import time
@@ -8,7 +9,13 @@ import hashlib
 import shutil
 
 VERIF = os.path.dirname(os.path.dirname(os.path.abspath(__file__)))
-BUILD = os.path.join(VERIF, '.build')
+# build cache (generated Verus files, runner crates, their cargo target). A check that runs against another tree
+# (VERIF_REPO: self-tests on scratch worktrees) gets its own cache so that it never races with a check of /repo.
+_alt_repo = os.environ.get('VERIF_REPO')
+if _alt_repo and os.path.realpath(_alt_repo) != os.path.realpath('/repo'):
+    BUILD = os.path.join(VERIF, '.build', 'alt', re.sub(r'[^A-Za-z0-9]+', '_', _alt_repo).strip('_'))
+else:
+    BUILD = os.path.join(VERIF, '.build')
 
 
 def repo_root():
